@@ -5,6 +5,7 @@ use super::run::RunResult;
 use serde::{Deserialize, Serialize};
 use std::collections::BTreeMap;
 
+pub mod c08;
 pub mod common;
 
 #[derive(Serialize, Deserialize, Clone, Debug, PartialEq)]
@@ -62,6 +63,7 @@ pub fn check(prop: &str, r: &RunResult) -> Report {
 		}
 	}
 	match prop {
+		"C08" => c08::check(r, &mut rep),
 		_ => {}
 	}
 	rep
